@@ -325,7 +325,21 @@ impl World {
                     r.last_update_slot = slot;
                     r.last_update_stale = 0;
                 }),
+                ix::VenueKind::Drift => {
+                    let now = self.chain.now().max(0) as u64;
+                    self.edit_spot_market(&k, |m| m.last_interest_ts = now)
+                }
             }
+        }
+    }
+    pub fn spot_market(&self, k: &Pubkey) -> Option<drift_mocks::state::MinimalSpotMarket> {
+        self.shadow.get(k).and_then(|a| crate::venue::read_spot_market(&a.data))
+    }
+    pub fn edit_spot_market<F: FnOnce(&mut drift_mocks::state::MinimalSpotMarket)>(&mut self, k: &Pubkey, f: F) {
+        if let Some(mut m) = self.spot_market(k) {
+            f(&mut m);
+            let lamports = self.shadow.get(k).map(|a| a.lamports).unwrap_or(100_000_000);
+            self.plant(k, Account { lamports, data: crate::venue::spot_market_bytes(&m), owner: crate::venue::DRIFT, executable: false, rent_epoch: 0 });
         }
     }
     pub fn solend_reserve(&self, k: &Pubkey) -> Option<solend_mocks::state::SolendMinimalReserve> {
@@ -361,13 +375,30 @@ impl World {
                 let cur = u128::from_le_bytes(r.liquidity_borrowed_amount_wads);
                 r.liquidity_borrowed_amount_wads = cur.saturating_add(add).min(u128::MAX >> 8).to_le_bytes();
             }),
+            ix::VenueKind::Drift => self.edit_spot_market(&kk.reserve, |m| {
+                // deposit interest accrues: the cumulative index grows (tokens backing it arrive through `venue_repaid`)
+                let cur = u128::from_le_bytes(m.cumulative_deposit_interest);
+                let add = ((cur as f64) * frac) as u128 + if whole { 0 } else { noise & 0xFFFF };
+                m.cumulative_deposit_interest = cur.saturating_add(add).min(1u128 << 100).to_le_bytes();
+            }),
         }
     }
     /// whole native units currently lent out by the venue reserve of bank `b`
     pub fn venue_borrowed_whole(&self, b: usize) -> u64 {
         match self.banks[b].venue {
             Some(kk) if kk.kind == ix::VenueKind::Kamino => self.reserve(&kk.reserve).map(|r| (u128::from_le_bytes(r.borrowed_amount_sf) >> 60) as u64).unwrap_or(0),
-            Some(kk) => self.solend_reserve(&kk.reserve).map(|r| (u128::from_le_bytes(r.liquidity_borrowed_amount_wads) / 1_000_000_000_000_000_000) as u64).unwrap_or(0),
+            Some(kk) if kk.kind == ix::VenueKind::Solend => self.solend_reserve(&kk.reserve).map(|r| (u128::from_le_bytes(r.liquidity_borrowed_amount_wads) / 1_000_000_000_000_000_000) as u64).unwrap_or(0),
+            // Drift: what the vault is short of the deposits' current worth (interest owed by borrowers)
+            Some(kk) => {
+                let have = self.token(&kk.supply) as u128;
+                self.spot_market(&kk.reserve)
+                    .and_then(|m| {
+                        let p = crate::venue::drift_precision_increase(m.decimals)?;
+                        let owed = u128::from_le_bytes(m.deposit_balance).checked_mul(u128::from_le_bytes(m.cumulative_deposit_interest))? / p + 1;
+                        Some(owed.saturating_sub(have).min(u64::MAX as u128) as u64)
+                    })
+                    .unwrap_or(0)
+            }
             None => 0,
         }
     }
@@ -390,6 +421,7 @@ impl World {
                 let cur = u128::from_le_bytes(r.liquidity_borrowed_amount_wads);
                 r.liquidity_borrowed_amount_wads = cur.saturating_sub((x as u128) * 1_000_000_000_000_000_000).to_le_bytes();
             }),
+            ix::VenueKind::Drift => {}
         }
     }
     pub fn reserve(&self, k: &Pubkey) -> Option<kamino_mocks::state::MinimalReserve> {
@@ -699,6 +731,7 @@ impl World {
         match kk.kind {
             ix::VenueKind::Kamino => ix::kamino_deposit(self.groups[bd.group].key, self.accts[a].key, signer, bd.key, ta, m.key, m.program(), kk, amount),
             ix::VenueKind::Solend => ix::solend_deposit(self.groups[bd.group].key, self.accts[a].key, signer, bd.key, ta, m.key, m.program(), kk, amount),
+            ix::VenueKind::Drift => ix::drift_deposit(self.groups[bd.group].key, self.accts[a].key, signer, bd.key, ta, m.key, m.program(), kk, amount),
         }
     }
     pub fn ix_venue_withdraw(&self, a: usize, b: usize, signer: Pubkey, ta: Pubkey, amount: u64, all: Option<bool>) -> Instruction {
@@ -710,7 +743,59 @@ impl World {
         match kk.kind {
             ix::VenueKind::Kamino => ix::kamino_withdraw(self.groups[bd.group].key, self.accts[a].key, signer, bd.key, ta, m.key, m.program(), kk, amount, all, rem),
             ix::VenueKind::Solend => ix::solend_withdraw(self.groups[bd.group].key, self.accts[a].key, signer, bd.key, ta, m.key, m.program(), kk, amount, all, rem),
+            ix::VenueKind::Drift => ix::drift_withdraw(self.groups[bd.group].key, self.accts[a].key, signer, bd.key, ta, m.key, m.program(), kk, amount, all, rem),
         }
+    }
+    /// Drift pass-through bank over a planted spot market / user / user stats served by `venue::drift_entry`.
+    /// `cum` is the starting cumulative deposit interest (1e10 = rate 1).
+    #[allow(clippy::too_many_arguments)]
+    pub async fn add_bank_drift(&mut self, group: usize, mint: usize, cfg: marginfi::state::drift::DriftConfigCompact, px: PythPx, cum: u128, market_index: u16, seed: u64) -> Result<usize, TxOut> {
+        use drift_mocks::state::{MinimalSpotMarket, MinimalUser, MinimalUserStats};
+        let oracle = self.next_kp().pubkey();
+        self.set_pyth(&oracle, px);
+        let state = self.next_kp().pubkey();
+        let sm_key = self.next_kp().pubkey();
+        let (signer, _) = crate::venue::drift_signer();
+        let vault = self.new_token_account(mint, signer, 0).await;
+        let (mk, dec, prog) = (self.mints[mint].key, self.mints[mint].decimals, self.mints[mint].program());
+        let gk = self.groups[group].key;
+        let admin = clone_kp(&self.groups[group].admin);
+        let p = self.chain.payer.pubkey();
+        let mut m: MinimalSpotMarket = bytemuck::Zeroable::zeroed();
+        m.pubkey = sm_key;
+        m.oracle = oracle;
+        m.mint = mk;
+        m.vault = vault;
+        m.cumulative_deposit_interest = cum.to_le_bytes();
+        m.cumulative_borrow_interest = cum.to_le_bytes();
+        m.last_interest_ts = self.chain.now().max(0) as u64;
+        m.decimals = dec as u32;
+        m.market_index = market_index;
+        self.plant(&sm_key, Account { lamports: 100_000_000, data: crate::venue::spot_market_bytes(&m), owner: crate::venue::DRIFT, executable: false, rent_epoch: 0 });
+        let mut cfg = cfg;
+        cfg.oracle = oracle;
+        cfg.oracle_setup = OracleSetup::DriftPythPull;
+        let (ixn, b) = ix::add_bank_drift(gk, admin.pubkey(), p, mk, seed, sm_key, prog, cfg, vec![ix::ro(oracle), ix::ro(sm_key)]);
+        let out = self.raw_send(&[ixn], &[&admin]).await;
+        if !out.ok() {
+            return Err(out);
+        }
+        let k = BankKeys::of(b);
+        let user = crate::venue::drift_user_key(&k.lva);
+        let stats = crate::venue::drift_user_stats_key(&k.lva);
+        // what `drift_init_user` leaves behind
+        let mut u: MinimalUser = bytemuck::Zeroable::zeroed();
+        u.authority = k.lva;
+        self.plant(&user, Account { lamports: 100_000_000, data: crate::venue::drift_user_bytes(&u), owner: crate::venue::DRIFT, executable: false, rent_epoch: 0 });
+        let mut st: MinimalUserStats = bytemuck::Zeroable::zeroed();
+        st.authority = k.lva;
+        let mut sd = drift_mocks::state::USER_STATS_DISCRIMINATOR.to_vec();
+        sd.extend_from_slice(bytemuck::bytes_of(&st));
+        self.plant(&stats, Account { lamports: 100_000_000, data: sd, owner: crate::venue::DRIFT, executable: false, rent_epoch: 0 });
+        let kk = ix::VenueKeys { kind: ix::VenueKind::Drift, market: state, lma: signer, reserve: sm_key, obligation: user, supply: vault, col_mint: stats, col_supply: Pubkey::default(), user_collateral: Pubkey::default() };
+        self.refresh(&[b, k.lv, k.iv, k.fv, gk, vault]).await;
+        self.banks.push(BankD { key: b, group, mint, oracle: OracleD::Venue { oracle, reserve: sm_key }, k, venue: Some(kk) });
+        Ok(self.banks.len() - 1)
     }
     /// Solend pass-through bank over a planted reserve / obligation served by `venue::solend_entry`.
     #[allow(clippy::too_many_arguments)]
